@@ -53,8 +53,10 @@ def replay(ck, path, field):
     os.makedirs(d, exist_ok=True)
     f = f"{d}/rig-replay.txt"
     open(f, "w").write(payload["rig_case"] + "\n" + str(payload["cores"]) + "\n")
-    os.environ["VERIF_CASE_FILE"] = f
-    _, go, _ = ck.run_stream("c09-rig-file", driver=False)
+    import subprocess
+    from .core import GOENV
+    subprocess.run([f"{WORK}/bin/harness", "-out", d, "c09-rig-file"], env=dict(GOENV, VERIF_CASE_FILE=f), check=True)
+    go = open(f"{d}/c09-rig-file.go").read().splitlines()
     n = 0
     for part in go[0].split(" ", 2)[2].split(" @@ "):
         kv = dict(x.split("=", 1) for x in part.split())
